@@ -16,6 +16,10 @@ pub(crate) fn set_poisoned(f: &Flag, on: bool) {
 }
 
 static mut PANICKING_NOW: bool = false;
+static mut WAS_POISONED: bool = false;
+fn borrow_reports_poisoned() {
+    assert!(unsafe { WAS_POISONED }, "[C13.3-borrow] borrow reports Err iff the flag is poisoned");
+}
 fn panicking_stub() -> bool {
     unsafe { PANICKING_NOW }
 }
@@ -31,6 +35,7 @@ fn panicking_stub() -> bool {
 #[kani::proof]
 #[kani::stub(crate::scheduler::get_scheduler, sup::get_scheduler_stub)]
 #[kani::stub(std::thread::panicking, panicking_stub)]
+#[kani::stub(std::sync::PoisonError::new, sup::poison_error_new_stub)]
 #[kani::unwind(3)]
 fn c13_3a_poison_truth_table() {
     let f = Flag::new();
@@ -46,13 +51,29 @@ fn c13_3a_poison_truth_table() {
     }
     let p0: bool = kani::any();
     let p1: bool = kani::any();
-    unsafe { PANICKING_NOW = p0 };
-    let g = f.borrow();
-    assert!(g.is_err() == was, "[C13.3-borrow] borrow reports Err iff the flag is poisoned");
-    let guard = match g {
-        Ok(g) => g,
-        Err(e) => e.into_inner(),
+    unsafe {
+        PANICKING_NOW = p0;
+        WAS_POISONED = was;
+        sup::ON_POISON_ERROR = Some(borrow_reports_poisoned);
+    }
+    // (under Kani a PoisonError cannot be returned — std is built with panic=abort — so the Err arm of borrow() ends
+    // in the hook above; the guard of a poisoned flag is built directly)
+    let guard = if was {
+        if kani::any() {
+            let _ = f.borrow();
+            assert!(false, "[C13.3-borrow] borrow reports Err iff the flag is poisoned");
+        }
+        Guard { panicking: p0 }
+    } else {
+        match f.borrow() {
+            Ok(g) => g,
+            Err(_) => {
+                kani::assume(false);
+                loop {}
+            }
+        }
     };
+    assert!(guard.panicking == p0, "[C13.3-guard-records] the guard records whether the thread was already panicking");
     unsafe { PANICKING_NOW = p1 };
     f.done(&guard);
     let expect = was || (!p0 && p1 && !(in_coroutine && canceled));
